@@ -398,6 +398,8 @@ impl Engine for C12 {
             .collect();
         let owners = r.range(1, 16);
         let sizes = [0u64, 1, 8, 9, 16, 17, 120, 121, 128, 129, 160, 161, 192, 193, 224, 225, 256, 257, 300, 1000, 70_000];
+        // rare (every live buffer is re-read after every operation): lengths around 2^16 and 2^17
+        let big = [65_535u64, 65_536, 65_537, 65_544, 65_664, 65_792, 131_072, 131_200];
         // swarm: some histories hammer one or two classes only
         let focus: Option<Vec<u64>> = if r.chance(40) { Some((0..r.usize(1, 2)).map(|_| r.pick(&sizes)).collect()) } else { None };
         let nops = r.usize(1, if tier == Tier::Thorough { 2000 } else { 500 });
@@ -410,6 +412,8 @@ impl Engine for C12 {
                 _ => {
                     if r.chance(20) {
                         r.below(300)
+                    } else if r.chance(2) {
+                        r.pick(&big)
                     } else {
                         r.pick(&sizes)
                     }
@@ -417,7 +421,8 @@ impl Engine for C12 {
             };
             if c < 100 - free_bias - 6 {
                 if r.chance(25) {
-                    ops.push(json!(["str", r.below(owners), size.min(2000), r.below(4), r.next() & 0xff]));
+                    // strings beyond 2000 bytes only where the length could wrap a 16-bit class computation
+                    ops.push(json!(["str", r.below(owners), if size >= 65_535 { size } else { size.min(2000) }, r.below(4), r.next() & 0xff]));
                 } else {
                     ops.push(json!(["alloc", r.below(owners), size, 0, r.next() & 0xff]));
                 }
@@ -514,7 +519,7 @@ impl Engine for C12 {
 
     fn rule(&self) -> String {
         "case = slot counts per class (from {1,2,3,4,8,16,64,512}) x history of 1-2000 operations by 1-16 owners: alloc(size) and \
-         alloc_str with sizes biased to the class boundaries 0,8,9,16,17,120,121,128,129,160,161,...,256,257 and oversize; release of a \
+         alloc_str with sizes biased to the class boundaries 0,8,9,16,17,120,121,128,129,160,161,...,256,257, oversize and around 2^16 / 2^17 (where a narrow class computation would wrap); release of a \
          live buffer in LIFO/FIFO/random order per owner with the size it was requested with; ownership probes at block starts, ends, \
          +-1, interior and fallback addresses; faults: class exhaustion (tiny classes, focused histories) and a full backing arena. \
          After every operation: length, class block, slot boundary, no overlap, canaries of all live buffers, per-class \
